@@ -218,7 +218,6 @@ async fn gen_main<S: Sys>(env: &mut Env<S>, args: Vec<Field>) -> BResult {
 /// `selfkill NAME`: sends signal NAME to the process executing the built-in (a subshell cannot
 /// learn its own pid from `$$`).
 async fn selfkill_main<S: Sys>(env: &mut Env<S>, args: Vec<Field>) -> BResult {
-    use yash_env::system::{SendSignal as _, Signals as _};
     let name = args.first().map(|f| f.value.as_str()).unwrap_or("TERM");
     let Some(num) = env.system.str2sig(name) else { return BResult::new(ExitStatus(2)) };
     match env.system.raise(num).await {
